@@ -15,18 +15,31 @@ use crate::world::{self, World};
 /// The user's thread-local: it owns the program-held handles at thread exit.
 struct UserTls {
     world: RefCell<Option<Box<World<()>>>>,
-    leak: std::cell::Cell<bool>,
+    /// 0 = drop the handles, 1 = leak them, 2 = call collect_cycles() first, then drop them
+    mode: std::cell::Cell<u8>,
 }
 
 impl Drop for UserTls {
     fn drop(&mut self) {
         rec::emit(json!({"e": "tls", "which": "user"}));
         if let Some(w) = self.world.borrow_mut().take() {
-            if self.leak.get() {
+            if self.mode.get() == 1 {
                 std::mem::forget(w);
                 return;
             }
             let mut w = w;
+            let counters = || {
+                (rust_cc::state::executions_count().map(|v| v as i64).unwrap_or(-1), rust_cc::state::allocated_bytes().map(|v| v as i64).unwrap_or(-1),
+                 rust_cc::state::buffered_objects_count().map(|v| v as i64).unwrap_or(-1), rust_cc::state::is_tracing().unwrap_or(false))
+            };
+            if self.mode.get() == 2 {
+                // a collection requested while the thread-locals are being destroyed: it runs if the collector's own
+                // thread-locals are still there and is a no-op otherwise; either way the collector is idle afterwards
+                rec::emit(json!({"e": "call", "op": "tcollect", "x": counters().0}));
+                rust_cc::collect_cycles();
+                let (x, by, bf, it) = counters();
+                rec::emit(json!({"e": "ret", "op": "tcollect", "res": "", "panic": "", "x": x, "by": by, "bf": bf, "it": it}));
+            }
             // drop every handle, one logged operation each; observations are reduced to the
             // public counters (the handle tables are going away)
             let ids: Vec<u32> = w.roots.keys().copied().collect();
@@ -48,7 +61,7 @@ impl Drop for UserTls {
 }
 
 thread_local! {
-    static USER: UserTls = UserTls { world: RefCell::new(None), leak: std::cell::Cell::new(false) };
+    static USER: UserTls = UserTls { world: RefCell::new(None), mode: std::cell::Cell::new(0) };
 }
 
 /// The catalogue of programs of spec/Threads.tla: step `i` (1-based) of program `p`.
@@ -78,12 +91,12 @@ fn step_op(p: u64, i: usize) -> Value {
     }
 }
 
-fn worker(sid: u64, prog: u64, order_user_first: bool, leak: bool, go: Receiver<usize>, done: Sender<()>) {
+fn worker(sid: u64, prog: u64, order_user_first: bool, mode: u8, go: Receiver<usize>, done: Sender<()>) {
     rec::SINK_ID.with(|c| c.set(sid));
     // The order of first access decides the order of destruction (reverse of registration):
     // "user_first" = the user's thread-local is destroyed before the collector's buffer.
     if !order_user_first {
-        USER.with(|u| u.leak.set(leak)); // registered first => destroyed last
+        USER.with(|u| u.mode.set(mode)); // registered first => destroyed last
     }
     let mut reset = crate::build_flags();
     {
@@ -109,7 +122,7 @@ fn worker(sid: u64, prog: u64, order_user_first: bool, leak: bool, go: Receiver<
         world::exec::<()>(&warm);
     }
     if order_user_first {
-        USER.with(|u| u.leak.set(leak)); // registered after the buffer => destroyed before it
+        USER.with(|u| u.mode.set(mode)); // registered after the buffer => destroyed before it
     }
     while let Ok(i) = go.recv() {
         if i == 0 {
@@ -140,9 +153,9 @@ pub fn run_schedule(s: &Value, base: u64) -> Vec<Vec<String>> {
         let (dtx, drx) = channel::<()>();
         let prog = s["progs"][t].as_u64().unwrap();
         let uf = s["order"][t] == "user_first";
-        let leak = s["exit"][t] == "leak";
+        let mode: u8 = if s["exit"][t] == "leak" { 1 } else if s["exit"][t] == "collect" { 2 } else { 0 };
         let sid = base + t as u64 + 1;
-        hs.push(std::thread::Builder::new().stack_size(1 << 20).spawn(move || worker(sid, prog, uf, leak, grx, dtx)).unwrap());
+        hs.push(std::thread::Builder::new().stack_size(1 << 20).spawn(move || worker(sid, prog, uf, mode, grx, dtx)).unwrap());
         gos.push(gtx);
         dones.push(drx);
     }
